@@ -101,6 +101,18 @@ def programs(tier):
                     continue
                 out.append(("vrbin", op, W, v))
                 out.append(("vrbin", op, W, ("vbin", "-", v, w)))
+        # Python lists / object arrays whose elements are scalar EXPRESSIONS: the elements of another vector, Parameters
+        # (what list(VectorParameter) gives), and a mixture with plain numbers
+        el_vars = [("velem", w, i) for i in range(n)]
+        el_par = [("param", f"p{i}") for i in range(n)]
+        el_mix = [(("velem", w, i), ("param", f"p{i}"), S(f"a{i}"), 2.0)[i % 4] for i in range(n)]
+        for els in (el_vars, el_par, el_mix):
+            for how in ("list", "array"):
+                E = ("elst", els, how)
+                for op in ("+", "-", "*", "/"):
+                    out.append(("vbin", op, v, E))
+                    out.append(("vrbin", op, E, v))
+                out.append(("vsum", ("vbin", "*", ("vbin", "+", v, w), E)))
         out += [("vneg", v), ("vneg", ("vbin", "+", v, w)), ("vpow", v, 2), ("vpow", v, 3), ("vpow", v, 0.5), ("vpow", v, S("c"))]
         for op in K.R.VEC_UNARY:
             out.append(("vun", op, v))
@@ -148,6 +160,12 @@ def programs(tier):
                 ("slice", ("mrow", A, 0), None, None, -1), ("vsum", ("mcol", A, 0))]
         a2 = ("arr2", [[S(f"a{i}{j}") for j in range(c)] for i in range(r)])
         l2 = ("lst2", [[S(f"a{i}{j}") for j in range(c)] for i in range(r)])
+        if (r, c) in ((2, 2), (2, 3)):
+            # nested lists / 2-D object arrays whose elements are scalar EXPRESSIONS (elements of B, Parameters, numbers)
+            for op in ("+", "-", "*", "/"):
+                for how in ("list", "array"):
+                    out.append(("mbin", op, A, ("elst2", [[("melem", B, i, j) if (i + j) % 2 == 0 else ("param", f"p{i}{j}") for j in range(c)] for i in range(r)], how)))
+                    out.append(("msum", ("mbin", op, ("mbin", "+", A, ("sc", 1.0)), ("elst2", [[("melem", B, i, j) if j else 2.0 for j in range(c)] for i in range(r)], how))))
         for op in ("+", "-", "*", "/"):
             # nested Python lists on either side of a matrix operator
             for W in (l2,):
@@ -236,6 +254,17 @@ class NpRef:
             return carr(r[1], self.val)
         if r[0] in ("arr2", "lst2"):
             return carr2(r[1], self.val)
+        if r[0] == "elst":
+            a = np.empty(len(r[1]), dtype=object)
+            for i, e in enumerate(r[1]):
+                a[i] = self.go(e) if K.R._is_scalar_recipe(e) else cval(e, self.val)
+            return a
+        if r[0] == "elst2":
+            a = np.empty((len(r[1]), len(r[1][0])), dtype=object)
+            for i, row in enumerate(r[1]):
+                for j, e in enumerate(row):
+                    a[i, j] = self.go(e) if K.R._is_scalar_recipe(e) else cval(e, self.val)
+            return a
         return self.go(r)
 
     def go(self, r):
@@ -246,6 +275,8 @@ class NpRef:
         if k == "mat":
             sym = len(r) > 4 and r[4]
             return np.array([[v[f"{r[1]}[{min(i, j)},{max(i, j)}]"] if sym else v[f"{r[1]}[{i},{j}]"] for j in range(r[3])] for i in range(r[2])], dtype=object)
+        if k in ("var", "param"):
+            return v[r[1]]
         if k == "slice":
             return self.go(r[1])[slice(r[2], r[3], r[4])]
         if k in ("vbin", "mbin"):
@@ -374,6 +405,9 @@ def check_program(recipe, planted=False):
             res.append(violation(f"C11|raises:{type(got).__name__}|{shp}", f"{what} raises {type(got).__name__}: {str(got)[:100]}", dict(payload, kind="raises")))
             continue
         flat, gshape = got
+        if any(_is_tree(e) for e in flat):
+            res.append(violation(f"C11|not-a-number|{shp}", f"{what}: evaluate() returns expression objects instead of numbers ({[type(e).__name__ for e in flat][:3]})", dict(payload, kind="tree")))
+            continue
         bad = [e for e in flat if isinstance(e, np.ndarray) and e.ndim > 0]
         if bad or tuple(gshape) != tuple(wshape) or len(flat) != len(wflat):
             res.append(violation(f"C11|shape|{shp}", f"{what}: result shape {gshape}{' with array-valued elements' if bad else ''}, NumPy gives {wshape}", dict(payload, kind="shape")))
@@ -382,6 +416,13 @@ def check_program(recipe, planted=False):
         dom = denominators([term(b) for b in wflat])
         res.append(K.decide(claims, pc, dom, what, f"C11|value|{shp}", payload, allv, QT[_TIER]))
     return res
+
+
+def _is_tree(e):
+    from optyx.core.expressions import Expression
+    if isinstance(e, np.ndarray) and e.dtype == object and e.ndim == 0:
+        e = e.item()
+    return isinstance(e, Expression)
 
 
 def _safe(recipe, val):
@@ -438,6 +479,8 @@ def replay(payload):
                     return True, f"raises {type(got).__name__}: {got}"
                 continue
             flat, gshape = got
+            if any(_is_tree(e) for e in flat):
+                return True, f"evaluate() returns expression objects instead of numbers: {[repr(e)[:60] for e in flat][:2]}"
             wshape = want.shape if isinstance(want, np.ndarray) else ()
             wflat = list(np.asarray(want, dtype=float).reshape(-1))
             if any(isinstance(e, np.ndarray) and e.ndim > 0 for e in flat) or tuple(gshape) != tuple(wshape):
